@@ -95,3 +95,46 @@ def calls(out, pattern):
 
 def trace_text(out, limit=40):
     return ["%s %s -> %s" % (f.split("::")[-1], bb, ch) for f, bb, ch in out.state.trace[-limit:]]
+
+
+UNKNOWN_PREFIXES = ("ret:", "await:", "havoc:", "fcmp!", "float_to_int!", "float!", "uninit!", "appended!", "raw:", "residual!")
+
+
+def depends_on_unknowns(o):
+    """does the path condition mention a value that came from an unmodelled callee / float / havoc?
+    such a path may be infeasible in the real program (the unknown is over-approximated)"""
+    from z3 import z3util
+    for c in o.pc:
+        try:
+            vs = z3util.get_vars(c)
+        except Exception:
+            continue
+        for x in vs:
+            if x.decl().name().startswith(UNKNOWN_PREFIXES):
+                return True
+    return bool(re.search(r"\[value from: [^\]]*(ret:|await:|havoc:|uninit!|residual)", o.info or ""))
+
+
+def report_panic(v, ex, o, msg, witness=None):
+    """a panic outcome is reported as a failure only when the solver confirms the path AND the path
+    does not hinge on an over-approximated unknown; otherwise the obligation becomes undecided"""
+    import z3
+    r, m = ex.model_for(o.pc)
+    v.queries += 1
+    if r == z3.unsat:
+        return False
+    if r != z3.sat or depends_on_unknowns(o):
+        v.undecided("a panic path could not be confirmed (%s): %s" % ("solver gave no verdict" if r != z3.sat else "it depends on the result of an unmodelled callee", msg[:160]))
+        return False
+    v.fail(msg, witness)
+    return True
+
+
+def fail_structural(v, o, msg, witness=None):
+    """post-condition failure of an obligation whose unit is meant to be modelled completely: if the
+    failing path hinges on an unmodelled callee's result the verdict is 'undecided', not 'fail'"""
+    if depends_on_unknowns(o):
+        v.undecided("a failing path depends on the result of an unmodelled callee: %s" % msg[:160])
+        return False
+    v.fail(msg, witness)
+    return True
